@@ -15,6 +15,7 @@ package main
 //                   0 <= i < Len()).
 
 import (
+	"fmt"
 	"go/constant"
 	"go/token"
 	"go/types"
@@ -522,4 +523,176 @@ func nonNegativeGuard(b *ssa.BasicBlock, v ssa.Value) bool {
 		}
 	}
 	return false
+}
+
+// reflectFieldList: automatic discharge for
+//
+//	reflect.ValueOf(X).FieldByName(list[i]).Interface().(T)
+//
+// (and for the FieldByName / Interface calls of the same chain): the static type
+// of X is a struct, `list` is a list of string constants — a local composite
+// literal or a package-level variable that is never written outside its
+// declaration — and every name in it is an exported field of that struct whose
+// type is T. Then FieldByName returns a valid exported field value, Interface does
+// not panic and the assertion succeeds. Re-derived from the source on every run.
+func (a *c02Auto) reflectFieldList(v ssa.Value) string {
+	// peel .Interface()
+	call, ok := v.(*ssa.Call)
+	if !ok || staticCalleeName(&call.Call) != "(reflect.Value).Interface" || len(call.Call.Args) != 1 {
+		return ""
+	}
+	return a.reflectFieldByName(call.Call.Args[0], "")
+}
+
+func (a *c02Auto) reflectFieldByName(v ssa.Value, wantType string) string {
+	fb, ok := v.(*ssa.Call)
+	if !ok || staticCalleeName(&fb.Call) != "(reflect.Value).FieldByName" || len(fb.Call.Args) != 2 {
+		return ""
+	}
+	vo, ok := fb.Call.Args[0].(*ssa.Call)
+	if !ok || staticCalleeName(&vo.Call) != "reflect.ValueOf" || len(vo.Call.Args) != 1 {
+		return ""
+	}
+	x := vo.Call.Args[0]
+	if mi, ok := x.(*ssa.MakeInterface); ok {
+		x = mi.X
+	}
+	st, ok := x.Type().Underlying().(*types.Struct)
+	if !ok {
+		return ""
+	}
+	names := a.constStringList(fb.Call.Args[1])
+	if len(names) == 0 {
+		return ""
+	}
+	typ := ""
+	for _, n := range names {
+		found := false
+		for i := 0; i < st.NumFields(); i++ {
+			f := st.Field(i)
+			if f.Name() == n && f.Exported() {
+				found = true
+				if typ == "" {
+					typ = f.Type().String()
+				} else if typ != f.Type().String() {
+					return ""
+				}
+			}
+		}
+		if !found {
+			return ""
+		}
+	}
+	if wantType != "" && typ != wantType {
+		return ""
+	}
+	return fmt.Sprintf("reflect-field-list: the %d names of the constant list are exported fields of %s, all of type %s", len(names), x.Type().String(), typ) + "|" + typ
+}
+
+// constStringList: v is list[i] where list is a slice/array of string constants
+// built by a composite literal in this function, or a package-level variable
+// initialised by such a literal and never stored to elsewhere.
+func (a *c02Auto) constStringList(v ssa.Value) []string {
+	ld, ok := v.(*ssa.UnOp)
+	if !ok || ld.Op != token.MUL {
+		return nil
+	}
+	ia, ok := ld.X.(*ssa.IndexAddr)
+	if !ok {
+		return nil
+	}
+	base := ia.X
+	var arr ssa.Value
+	switch b := base.(type) {
+	case *ssa.Slice: // local literal: slice of a fresh array
+		arr = b.X
+	case *ssa.UnOp: // load of a package-level slice variable
+		if g, ok := b.X.(*ssa.Global); ok && b.Op == token.MUL {
+			return globalStringList(g)
+		}
+		return nil
+	default:
+		return nil
+	}
+	al, ok := arr.(*ssa.Alloc)
+	if !ok || al.Referrers() == nil {
+		return nil
+	}
+	var out []string
+	for _, ref := range *al.Referrers() {
+		ea, ok := ref.(*ssa.IndexAddr)
+		if !ok {
+			continue
+		}
+		if ea == ia {
+			continue
+		}
+		for _, r2 := range *ea.Referrers() {
+			if st, ok := r2.(*ssa.Store); ok && st.Addr == ea {
+				k, isK := st.Val.(*ssa.Const)
+				if !isK || k.Value == nil || k.Value.Kind() != constant.String {
+					return nil
+				}
+				out = append(out, constant.StringVal(k.Value))
+			}
+		}
+	}
+	return out
+}
+
+func globalStringList(g *ssa.Global) []string {
+	if g.Pkg == nil || !isModPkg(g.Pkg.Pkg) {
+		return nil
+	}
+	initFn := g.Pkg.Func("init")
+	if initFn == nil {
+		return nil
+	}
+	// exactly one store to g, in init, of a slice of a fresh array filled with constants
+	var out []string
+	stores := 0
+	for _, m := range g.Pkg.Members {
+		f, ok := m.(*ssa.Function)
+		if !ok {
+			continue
+		}
+		allInstrs(f, func(in ssa.Instruction) {
+			st, ok := in.(*ssa.Store)
+			if !ok || st.Addr != ssa.Value(g) {
+				return
+			}
+			stores++
+			if f != initFn {
+				stores += 100
+				return
+			}
+			sl, ok := st.Val.(*ssa.Slice)
+			if !ok {
+				stores += 100
+				return
+			}
+			al, ok := sl.X.(*ssa.Alloc)
+			if !ok || al.Referrers() == nil {
+				stores += 100
+				return
+			}
+			for _, ref := range *al.Referrers() {
+				if ea, ok := ref.(*ssa.IndexAddr); ok {
+					for _, r2 := range *ea.Referrers() {
+						if s2, ok := r2.(*ssa.Store); ok && s2.Addr == ea {
+							if k, isK := s2.Val.(*ssa.Const); isK && k.Value != nil && k.Value.Kind() == constant.String {
+								out = append(out, constant.StringVal(k.Value))
+							} else {
+								stores += 100
+							}
+						}
+					}
+				}
+			}
+		})
+	}
+	if stores != 1 {
+		return nil
+	}
+	return out
 }
